@@ -23,8 +23,13 @@ class Gone(Exception):
 
 class OnionWorld:
     def __init__(self, seed=0, names=("o", "r1", "r2", "x"), exits=("x",), cands=None, first=None, settings=None,
-                 origins=("o",)):
+                 origins=("o",), suspend_join=False):
         from ipv8.messaging.anonymization.community import TunnelCommunity
+        self.suspend_join = suspend_join
+        self.held_joins = []    # (node, real circuit id, datagram seq, future): on_create tasks waiting in should_join_circuit
+        self.delivering = 0
+        if suspend_join:
+            TunnelCommunity = self._suspending(TunnelCommunity)
         from ipv8.peer import Peer
         from .nodes import Node
         random.seed(seed)
@@ -90,7 +95,7 @@ class OnionWorld:
         for name in ("create_circuit", "send_data", "remove_circuit", "exit_return", "vanish", "node_remove_relay",
                      "node_remove_exit", "expect_quiet", "deliver", "lose", "dup", "tamper", "tamper_at", "tamper_header",
                      "splice", "inject", "adv_create", "adv_plain", "forge_destroy", "mangle_answer", "link_e2e",
-                     "send_e2e", "rp_forge", "transports_ready", "send_test"):
+                     "send_e2e", "rp_forge", "transports_ready", "send_test", "join_resume"):
             setattr(self, name, self._stepper(getattr(self, name)))
 
     def _stepper(self, fn):
@@ -494,9 +499,34 @@ class OnionWorld:
             n += 1
         return n
 
+    def _suspending(self, cls):
+        """should_join_circuit is an async extension point (applications await their own admission decision there):
+        this subclass really suspends in it until the driver resumes the decision (spec: SuspendJoin / JoinResume)"""
+        world = self
+
+        class SuspendingTunnelCommunity(cls):
+            async def should_join_circuit(self, create_payload, previous_node_address):
+                fut = world.loop.create_future()
+                nm = next(n for n, o in world.ov.items() if o is self)
+                world.held_joins.append((nm, create_payload.circuit_id, world.delivering, fut))
+                await fut
+                return await super().should_join_circuit(create_payload, previous_node_address)
+        SuspendingTunnelCommunity.__name__ = cls.__name__
+        return SuspendingTunnelCommunity
+
+    def join_resume(self, n, spec_cid, k):
+        for i, (nm, rc, seq, fut) in enumerate(self.held_joins):
+            if nm == n and seq == k and self.cid(rc) == spec_cid:
+                del self.held_joins[i]
+                fut.set_result(True)
+                self.loop.drain()
+                return self.log("JoinResume", n=n, cid=spec_cid, k=k)
+        raise KeyError(("held join", n, spec_cid, k))
+
     # -- network steps
     def deliver(self, seq):
         i = self.find(seq)
+        self.delivering = seq
         try:
             self.loop.call(self.net.deliver_next, i)
         except Exception as exc:  # noqa: BLE001 - an exception reaching the transport callback is a finding, not a crash
